@@ -429,7 +429,41 @@ def run(ctx):
                necessary="an instance element declared because of words in a message is an element added by author text")
     pulldata_text_obligations(ctx, r15, "C06.R15")
     rules.append(r15)
+    rules.append(_loop_substitution_rule(ctx))
     return rules
+
+
+def _loop_substitution_rule(ctx):
+    """`begin loop over <list>`: each child's texts are templates whose %(name)s / %(label)s placeholders are filled
+    with the choice's name / label.  The choice's text is DATA: it is inserted as it is, whatever characters it holds
+    (backslashes, group references, percent signs, markup characters) - evaluated on adversarial labels, for plain and
+    per-language child texts and plain and per-language choice labels."""
+    r = Rule("C06", "C06.R16", "loop templates are filled with the choice text as it is", floor=20,
+             necessary="a choice label interpreted as a replacement template / format changes (or aborts on) text the author typed")
+    bcls = ctx.repo.cls("pyxform.builder:SurveyElementBuilder")
+    fn = bcls.methods["_name_and_label_substitutions"]
+    LABELS = ["Plain", "C:\\new\\tables", "a\\1b", "\\g<0>", "50% or more", "&<>\"'", "100%s sure", "${ref} & co", "trailing\\"]
+    for lab in LABELS:
+        for kind in ("plain child text, plain choice label", "per-language child text, plain choice label", "per-language child text, per-language choice label"):
+            col = {"name": "c1", "label": lab}
+            tmpl = {"type": "text", "name": "q_%(name)s", "label": "Rate %(label)s now", "bind": {"relevant": "${x} = '%(name)s'"}}
+            want_label = "Rate " + lab + " now"
+            if kind != "plain child text, plain choice label":
+                tmpl["label"] = {"en": "Rate %(label)s now", "fr": "Notez %(label)s"}
+                want_label = {"en": "Rate " + lab + " now", "fr": "Notez " + lab}
+            if kind == "per-language child text, per-language choice label":
+                col["label"] = {"en": lab, "fr": lab + " (fr)"}
+                want_label = {"en": "Rate " + lab + " now", "fr": "Notez " + lab + " (fr)"}
+            it = ctx.interp("C06.R16")
+            it.reset([])
+            try:
+                out = it.call_function(fn, [tmpl, col], {}, None, fn.node)
+                got = (out.get("name"), out.get("label"), (out.get("bind") or {}).get("relevant")) if isinstance(out, dict) else out
+            except Raised as e:
+                got = f"raises {e.exc_name}{e.exc_args}"
+            r.check(got == ("q_c1", want_label, "${x} = 'c1'"), f"loop template[{kind}; choice label {lab!r}]", "placeholders are replaced by the choice's name / label, character for character", fn.loc(),
+                    why_fail=repr(got)[:200])
+    return r
 
 
 def _wrapper_ok(payload, TAG, TXT) -> bool:
